@@ -229,7 +229,8 @@ func (r *grammarOptimizer) optimizeRules(exprs []Expression) []Expression {
 func (r *grammarOptimizer) optimizeRule(expr Expression) Expression {
 	// Optimize RuleRefExpr
 	if ruleRef, ok := expr.(*RuleRefExpr); ok {
-		if _, ok := r.ruleUsesRules[ruleRef.Name.Val]; !ok {
+		_, defined := r.rules[ruleRef.Name.Val]
+		if _, ok := r.ruleUsesRules[ruleRef.Name.Val]; !ok && defined {
 			r.optimized = true
 			delete(r.ruleUsedByRules[ruleRef.Name.Val], r.rule)
 			if len(r.ruleUsedByRules[ruleRef.Name.Val]) == 0 {
